@@ -23,6 +23,10 @@ def key_pool(rng, n):
             pool.add(b + bytes([rng.choice(ALPHA)]))                            # extension
         if rng.random() < 0.2:
             pool.add(bytes(rng.randrange(256) for _ in range(rng.choice([1, 2, 3, 6]))))
+    if rng.random() < 0.1:
+        # a long common stem (15 - 33 bytes): extension paths and shared prefixes of 30 - 66 nibbles
+        stem = bytes(rng.choice(ALPHA) for _ in range(rng.choice([15, 16, 17, 31, 32, 33])))
+        pool = {stem + k for k in pool}
     return sorted(pool)
 
 
